@@ -106,8 +106,10 @@ func scramModelInputs(sc *DialScenario, run *DialRun) (su, sp string, crypto []s
 			sp = "."
 		}
 	}
-	// client-first: first auth-step line that decodes to "n,,n=...,r=<nonce>" (or "p=...")
-	firstBare, nonce := "", ""
+	// every client-first the server saw: "n,,n=...,r=<nonce>" (or "p=...,,n=...")
+	type cf struct{ bare, gs2 string }
+	var firsts []cf
+	var nonces []string
 	pendingAuth := false
 	alg := sc.AuthType
 	for _, e := range run.Events {
@@ -123,19 +125,23 @@ func scramModelInputs(sc *DialScenario, run *DialRun) (su, sp string, crypto []s
 			if raw, err := base64.StdEncoding.DecodeString(e.Line); err == nil {
 				s := string(raw)
 				if i := strings.Index(s, "n="); i >= 0 && (strings.HasPrefix(s, "n,,") || strings.HasPrefix(s, "p=")) {
-					firstBare = s[i:]
-					if j := strings.LastIndex(firstBare, ",r="); j >= 0 {
-						nonce = firstBare[j+3:]
+					bare := s[i:]
+					firsts = append(firsts, cf{bare, s[:i]})
+					if j := strings.LastIndex(bare, ",r="); j >= 0 {
+						nonces = append(nonces, bare[j+3:])
 					}
-					break
 				}
 			}
 		}
 	}
+	nonce := strings.Join(nonces, "\x00")
 	run.ScramNonce = nonce
-	if firstBare == "" || !okp {
+	run.ScramNonces = nonces
+	if len(firsts) == 0 || !okp {
 		return
 	}
+	for _, f := range firsts {
+	firstBare, gs2 := f.bare, f.gs2
 	for _, a := range run.Applied {
 		if a.Kind != "reply" || a.Code != 334 {
 			continue
@@ -157,9 +163,20 @@ func scramModelInputs(sc *DialScenario, run *DialRun) (su, sp string, crypto []s
 			continue
 		}
 		combined := parts[0][2:]
-		am := firstBare + "," + string(raw) + ",c=biws,r=" + combined
+		cbind := "biws"
+		if strings.HasPrefix(gs2, "p=") && run.TLSState != nil {
+			cb := []byte(gs2)
+			if strings.HasPrefix(gs2, "p=tls-unique") {
+				cb = append(cb, run.TLSState.TLSUnique...)
+			} else if ekm, err := run.TLSState.ExportKeyingMaterial("EXPORTER-Channel-Binding", nil, 32); err == nil {
+				cb = append(cb, ekm...)
+			}
+			cbind = base64.StdEncoding.EncodeToString(cb)
+		}
+		am := firstBare + "," + string(raw) + ",c=" + cbind + ",r=" + combined
 		proof, sig := refScram(alg, normPass, salt, iter, []byte(am))
 		crypto = append(crypto, string(salt), fmt.Sprint(iter), am, proof, sig)
+	}
 	}
 	return
 }
